@@ -91,8 +91,20 @@ def run_estimates(el, feed, call, client=None, want_client=False, shared_model_p
 def baseline_argument(el):
     """The baseline file handed to the client: el.pre, or the larger file it was cut from (rows of states the config
     does not name for this office), if the case has one."""
-    f = getattr(el, "pre_file", None)
-    return (f if f is not None else el.pre).copy(deep=True)
+    extra = getattr(el, "pre_extra", None)
+    if extra is None:
+        return el.pre.copy(deep=True)
+    import pandas as pd
+
+    extra = extra[[c for c in el.pre.columns if c in extra.columns]]
+    parts = [extra, el.pre] if getattr(el, "pre_extra_first", False) else [el.pre, extra]
+    f = pd.concat(parts).reset_index(drop=True)
+    for c in el.pre.columns:
+        try:
+            f[c] = f[c].astype(el.pre[c].dtype)
+        except (TypeError, ValueError):
+            pass
+    return f
 
 
 def feed_argument(feed, call):
